@@ -61,6 +61,7 @@ type step struct {
 	To    int    `json:"to"`    // receiving instance (deliver, merge, leave: the instance that is told)
 	Shard int    `json:"shard"` // shard index
 	Ann   int    `json:"ann"`   // deliver: index of the announcement (in order of creation)
+	Dead  bool   `json:"dead,omitempty"` // leave: the node crashed (memberlist reports StateDead) instead of leaving gracefully (StateLeft)
 }
 
 type announcement struct {
@@ -136,9 +137,13 @@ func run(insts []*inst, sc scenario, finalSync bool) ([]rec.Violation, string) {
 			}
 		case "leave":
 			left[st.From] = true
+			state := memberlist.StateLeft
+			if st.Dead {
+				state = memberlist.StateDead
+			}
 			for i, in := range insts {
 				if i != st.From {
-					in.ev.NotifyLeave(&memberlist.Node{Name: insts[st.From].name, Addr: net.IPv4(127, 0, 0, 1)})
+					in.ev.NotifyLeave(&memberlist.Node{Name: insts[st.From].name, Addr: net.IPv4(127, 0, 0, 1), State: state})
 				}
 			}
 		}
@@ -313,7 +318,13 @@ func families(nInst, nShard int, withLeave, withUnclaim bool) []scenario {
 					// the oldest claimant leaves at every position after the claims
 					for pos := len(claims); pos <= len(base); pos += 2 {
 						lv := append([]step{}, base[:pos]...)
-						lv = append(lv, step{Kind: "leave", From: cl[0]})
+						// the peers know the leaver's shards from an earlier state exchange
+						for to := 0; to < nInst; to++ {
+							if to != cl[0] {
+								lv = append(lv, step{Kind: "merge", From: cl[0], To: to})
+							}
+						}
+						lv = append(lv, step{Kind: "leave", From: cl[0], Dead: (pos/2)%2 == 0})
 						lv = append(lv, base[pos:]...)
 						out = append(out, scenario{Steps: lv})
 					}
